@@ -42,8 +42,12 @@ std::vector<double> longitudes(bool th) {
 }
 const double kHeights[] = {-11000, -500, 0, 1, 500, 9000, 100000};
 
+// a converter on another ellipsoid (Clarke 1880 IGN) that is handed the bit-identical inputs right before the converter under test
+const ECEFConverter& other_converter() { static const ECEFConverter o(EarthEllipsoid(6378249.2, 6356515.0)); return o; }
+
 void check_cartesian(vf::Ctx& c, const ECEFConverter& conv, const georef::Ell& E, const Eigen::Vector3d& P, const std::string& params) {
   c.eval();
+  (void)other_converter().toWGS84(P);
   GeodeticCoordinates g = conv.toWGS84(P);
   c.obs(g.latitude); c.obs(g.longitude); c.obs(g.altitude);
   bool finite = std::isfinite(g.latitude) && std::isfinite(g.longitude) && std::isfinite(g.altitude);
@@ -128,7 +132,10 @@ void vf_run(uint64_t idx, const std::string& tier, vf::Ctx& c) {
       bool special = M_PI - std::fabs(lon) < 1e-2 || std::fabs(lon) < 1e-2 || std::fabs(std::fabs(lon) - M_PI / 2) < 1e-2 || std::fabs(lat) > 1.55;
       if (special) c.nontrivial();
       GeodeticCoordinates g = makeGeodeticCoordinates(lat, lon, h);
-      Eigen::Vector3d P = conv.toECEF(g);
+      (void)other_converter().toECEF(g);
+      const Eigen::Vector3d& Pref = conv.toECEF(g);   // the result is held by reference across the next calls (a by-value result binds a temporary)
+      Eigen::Vector3d P = Pref;
+      { const Eigen::Vector3d& Q = conv.toECEF(makeGeodeticCoordinates(-lat * 0.5, lon * 0.5, h + 1)); (void)Q; if (!(Pref == P)) c.violation("ECEFConverter.toECEF.resultAliased", params, vf::JO().vec("first_result_now", std::vector<double>{Pref[0], Pref[1], Pref[2]}).vec("first_result_then", std::vector<double>{P[0], P[1], P[2]}).done()); }
       for (int i = 0; i < 3; ++i) c.obs(P[i]);
       // (1) definition: P0 on the ellipsoid, gradient there parallel to n(lat,lon), P - P0 = h n
       long double x = P0[0], y = P0[1], z = P0[2], a = ec.a, b = ec.b;
@@ -183,6 +190,7 @@ std::string vf_describe(const std::string& tier) {
   vf::JO o;
   o.u("ellipsoids", ellipsoids().size()).u("latitudes", latitudes(th).size()).u("longitudes", longitudes(th).size()).vec("heights_m", std::vector<double>(kHeights, kHeights + 7));
   o.str("trajectories", std::string("one long-lived converter per (3 ellipsoids x 6 start latitudes): consecutive inputs spaced by {1e-12,2.5e-10,1e-9,4e-9,2.5e-8,1.3e-7,6e-7,1e-5,1e-4,1.57e-3} rad (6 um .. 10 km) x {north, east, north-east, up} x {drift, widening back-and-forth} x ") + (th ? "400" : "60") + " steps; every answer must satisfy the point-wise clauses (forward map vs definition 1 um, round trips 1e-9 rad / 1 mm)");
+  o.str("coexisting_objects", "a converter on another ellipsoid is handed the bit-identical input right before every call of the converter under test; results are held by reference across the next call");
   o.str("ellipsoid_set", "library GRS80, Clarke 1880 IGN, International 1924, a0*(1+{-1e-3,0,1e-3}) x f in {0 (sphere), 1/600, 1/298.257222101, 1/290}");
   o.str("latitudes_deg", th ? "-89.9..89.9 step 0.1, +-(89..89.9) step 0.01, plus 0, +-1e-9, +-45, +-80, +-85, +-89, +-89.9, 33.3" : "-89.9..89.9 step 5 plus 0, +-1e-9, +-45, +-80, +-85, +-89, +-89.9, 33.3");
   o.str("longitudes_rad", th ? "step 1 deg; +-pi exactly; +-(pi-1e-k) k=3..15; 0, +-pi/2 and their +-1e-k neighbours k=3,6,9,12,15" : "step 15 deg; +-pi exactly; +-(pi-1e-k) k=3..15; 0, +-pi/2 and their +-1e-k neighbours k=3,6,9,12,15");
